@@ -322,6 +322,30 @@ def main():
         raise ValueError("subscribe: only some _subscribe calls are under the lock")
     g.attempt("fab.subscribeLocked", True, subscribe_locked)
 
+    def subscribe_covers_append():
+        """every write to / membership test on a signal's subscriber list happens inside `_subscribe` or inside the `with` block"""
+        fn = find_func(AF, "subscribe")
+        inner = [n for n in ast.walk(fn) if isinstance(n, ast.FunctionDef) and n.name == "_subscribe"]
+        withs = [n for n in ast.walk(fn) if isinstance(n, ast.With) and "subscription_lock" in unparse(n.items[0])]
+        covered = set(id(n) for w in withs for n in ast.walk(w))
+        calls = [n for n in ast.walk(fn) if isinstance(n, ast.Call) and unparse(n.func) == "_subscribe"]
+        if inner and calls and all(id(c) in covered for c in calls):
+            # `_subscribe` only ever runs under the lock: its whole body is covered
+            covered |= set(id(n) for r in inner for n in ast.walk(r))
+        writes = [n for n in ast.walk(fn) if (isinstance(n, ast.Call) and isinstance(n.func, ast.Attribute) and n.func.attr in ("append", "insert", "extend"))
+                  or (isinstance(n, ast.Compare) and any(isinstance(o, (ast.In, ast.NotIn)) for o in n.ops) and "queue_type" not in unparse(n))
+                  or (isinstance(n, ast.Assign) and any(isinstance(t, ast.Subscript) for t in n.targets))]
+        if not writes:
+            raise ValueError("subscribe: no registry accesses recognised")
+        if not inner:
+            # everything written out in `subscribe` itself: covered = inside the with block
+            covered = set(id(n) for w in withs for n in ast.walk(w))
+        # `_subscribe` must itself be called only under the lock (fab.subscribeLocked) and must not release it inside
+        if any("release" in unparse(n) for r in inner for n in ast.walk(r) if isinstance(n, ast.Call)):
+            return False
+        return all(id(n) in covered for n in writes)
+    g.attempt("fab.subscribeCoversAppend", True, subscribe_covers_append)
+
     def clear_in_place():
         fn = [n for n in AF.body if isinstance(n, ast.FunctionDef) and n.name == "clear"][0]
         src = unparse(fn)
@@ -691,6 +715,34 @@ def main():
         raise ValueError("unrecognised single-line branch of stripped()")
     g.attempt("singleLineStripped", True, single_line_stripped)
 
+    def live_spy_reads_callback_each_line():
+        """print_spy_after_rtc_if_live: inside the loop over the step's lines the callback is looked up on the chart object"""
+        fn = [n for n in ast.walk(find_class(hsm, "HsmWithQueues")) if isinstance(n, ast.FunctionDef) and n.name == "print_spy_after_rtc_if_live"]
+        if not fn:
+            fn = [n for n in ast.walk(hsm) if isinstance(n, ast.FunctionDef) and n.name == "print_spy_after_rtc_if_live"]
+        loops = [n for n in ast.walk(fn[0]) if isinstance(n, (ast.For, ast.While))]
+        if len(loops) != 1:
+            raise ValueError("print_spy_after_rtc_if_live: expected one loop, found %d" % len(loops))
+        calls = [n for n in ast.walk(loops[0]) if isinstance(n, ast.Call)]
+        direct = [c for c in calls if unparse(c.func) == "self.live_spy_callback"]
+        if direct:
+            return True
+        if "live_spy_callback" in unparse(fn[0]):
+            return False
+        raise ValueError("print_spy_after_rtc_if_live: no use of live_spy_callback")
+    g.attempt("liveSpyReadsCallbackEachLine", True, live_spy_reads_callback_each_line)
+
+    def singleton_nested_skips_lock():
+        """SingletonDecorator.__call__: every construction happens under the decorator's lock after a second check, whoever asks"""
+        fn = find_func(find_class(sing, "SingletonDecorator"), "__call__")
+        builds = [n for n in ast.walk(fn) if isinstance(n, ast.Call) and "klass" in unparse(n.func)]
+        withs = [n for n in ast.walk(fn) if isinstance(n, ast.With) and "_lock" in unparse(n.items[0])]
+        inside = set(id(n) for w in withs for n in ast.walk(w))
+        if not builds:
+            raise ValueError("SingletonDecorator.__call__: no construction found")
+        return not all(id(b) in inside for b in builds)
+    g.attempt("singletonNestedSkipsLock", False, singleton_nested_skips_lock)
+
     def recall_pops_first():
         """HsmWithQueues.recall: is the deferred event taken out of the defer queue BEFORE it is posted (a post may run the chart,
         whose handler may recall again)?"""
@@ -739,7 +791,8 @@ def main():
                      v["fab.feOrder"], v["fab.lifoDeliver"], b(v["fab.startKeepsHandles"]), b(v["fab.clearInPlace"]),
                      b(v["fab.subscribeKeepsOthers"])))
     lines.append("def fifoDeliverPlain : Bool := " + b(v["fab.fifoDeliverPlain"]))
-    for k in ("recallPopsFirst", "singletonLocked", "singletonPublishesEarly", "registryLocked", "tsaFlagPerThread", "tsaPerInstance", "tsaProtocol", "singleLineStripped"):
+    lines.append("def fabSubscribeCoversAppend : Bool := " + b(v["fab.subscribeCoversAppend"]))
+    for k in ("recallPopsFirst", "liveSpyReadsCallbackEachLine", "singletonNestedSkipsLock", "singletonLocked", "singletonPublishesEarly", "registryLocked", "tsaFlagPerThread", "tsaPerInstance", "tsaProtocol", "singleLineStripped"):
         lines.append("def %s : Bool := %s" % (k, b(v[k])))
     for k in ("notAtomicPattern", "lockRequestPattern", "stripPattern"):
         lines.append("def %s : String := %s" % (k, lean_str(v[k])))
